@@ -14,6 +14,7 @@ func init() {
 			"R16.2 reflect slice typestate: SetCap is applied only after SetLen(0) (Len <= n <= Cap), and on every successful parse the record-table destination is overwritten (SetLen + Copy), never left stale; R16.3 a record obtained from a reader is retained only as a copy (record reuse cannot alias delivered records); " +
 			"R16.4 parser and writer errors are returned, only io.EOF is absorbed, the piped path ends with Flush then Error, and the goroutines of the WriterTo branch close their pipe ends on every exit and their errors are waited for; R16.5 nil/typed-nil/unsupported sources and destinations yield an error (reflect validity typestate as in C15). " +
 			"R16.1 also: fields of csvOpts are written only by option setters at construction or in a per-call copy. " +
+			"R16.2 also: the container a consumer pipes records into starts empty; R16.3 also: a record returned by a reader's Read is never appended to a table as it is; R16.4 also: a failed call may not be re-executed by a loop without its error having been returned. " +
 			"NOT decided: record-for-record equality with encoding/csv.",
 		Run: runC16,
 	})
